@@ -93,6 +93,8 @@ write("c27", ALLINV, **C27)
 write("c27_thorough", ALLINV, **dict(C27, MaxSteps=6, TreeIds="{3, 5, 8}", Contents="{1, 2}"))
 write("neg_sparse_drop_tree", ["Inv_C27"], **dict(C27, Bug='"sparse-drop-tree"'))
 write("neg_sparse_delete", ["Inv_C27"], **dict(C27, Bug='"sparse-delete"', MaxSteps=5))
+write("finding_sparse_clash", ["Inv_C27"], **dict(C27, Strict="TRUE", MaxSteps=5, TreeIds="{4}", SparseIds="{1, 4}",
+                                                Acts=acts(["Write", "FileToDir", "CheckOut", "SetSparse", "Snapshot"])))
 write("finding_sparse_panic", ["Inv_C27"], **dict(C27, Strict="TRUE", MaxSteps=5))
 write("finding_stale_state", ["Inv_C23"], **dict(C27, Strict="TRUE", MaxSteps=5, TreeIds="{1, 3, 5}",
                                                 Acts=acts(["Write", "CheckOut", "SetSparse", "Snapshot"]), EditPaths="SparseEditPaths"))
